@@ -4,9 +4,21 @@ package main
 
 import (
 	"errors"
+	"reflect"
 	"sort"
 	"strconv"
 	"strings"
+	"time"
+
+	"github.com/restic/restic/internal/backend/azure"
+	"github.com/restic/restic/internal/backend/b2"
+	"github.com/restic/restic/internal/backend/gs"
+	"github.com/restic/restic/internal/backend/local"
+	"github.com/restic/restic/internal/backend/rclone"
+	"github.com/restic/restic/internal/backend/rest"
+	"github.com/restic/restic/internal/backend/s3"
+	"github.com/restic/restic/internal/backend/sftp"
+	"github.com/restic/restic/internal/backend/swift"
 
 	"github.com/restic/restic/internal/backend"
 	"github.com/restic/restic/internal/backend/mem"
@@ -25,6 +37,10 @@ import (
 //   opts   in <s>…               res ok <key>=<value>… (sorted) | err emptykey|dup|other | panic
 //   shell  in <s>                res ok <field>… | err single|double|empty|other | panic
 //   flags  in <s> readdata 0|1 pct <class>     res accept|invalid|badrange|toolarge|pctrange|sizerange|together|other|panic
+//   apply  struct <name>; field <tag> <Type.Name()>…; opt <key> <value> dur ok <ns>|err …
+//          res ok <key>=<stored value>… | err unknown|range|syntax|badduration|other:… | panic <msg>
+//          (Options.Apply on a harness struct with a field of every supported type and on the real
+//          backend config structs, after Options.Extract(ns) like global.parseConfig does)
 //   cli    what dur|count|opts|flags  in <s>…   res accept | flagerr <kind…> | panic
 // Error kinds: nonumber nounit invalidunit range syntax negative other.
 var _ = verifRegister("C49", streamC49)
@@ -250,7 +266,213 @@ func c49Flags(h *H, s string, readData bool) {
 	h.End()
 }
 
+// ---------------------------------------------------------------- Options.Apply
+
+type c49Named int
+
+// harness target: one field of every type Apply supports, an untagged field, and two fields of
+// types Apply does not handle (it panics when such an option is given)
+type c49Target struct {
+	S     string        `option:"s"`
+	I     int           `option:"i"`
+	U     uint          `option:"u"`
+	B     bool          `option:"b"`
+	D     time.Duration `option:"d"`
+	NoTag int
+	F     float64  `option:"f"`
+	N     c49Named `option:"n"`
+}
+
+type c49Struct struct {
+	name string
+	ns   string
+	mk   func() any
+}
+
+var c49Structs = []c49Struct{
+	{"harness", "t", func() any { return &c49Target{} }},
+	{"local", "local", func() any { return &local.Config{} }},
+	{"sftp", "sftp", func() any { return &sftp.Config{} }},
+	{"rest", "rest", func() any { return &rest.Config{} }},
+	{"s3", "s3", func() any { return &s3.Config{} }},
+	{"rclone", "rclone", func() any { return &rclone.Config{} }},
+	{"b2", "b2", func() any { return &b2.Config{} }},
+	{"azure", "azure", func() any { return &azure.Config{} }},
+	{"gs", "gs", func() any { return &gs.Config{} }},
+	{"swift", "swift", func() any { return &swift.Config{} }},
+}
+
+func c49Fields(dst any) (tags []string, kinds map[string]string, idx map[string]int) {
+	v := reflect.ValueOf(dst).Elem()
+	kinds, idx = map[string]string{}, map[string]int{}
+	for i := 0; i < v.NumField(); i++ {
+		f := v.Type().Field(i)
+		tag := f.Tag.Get("option")
+		if tag == "" {
+			continue
+		}
+		tags = append(tags, tag)
+		kinds[tag] = f.Type.Name()
+		idx[tag] = i
+	}
+	sort.Strings(tags)
+	return
+}
+
+var c49IntVals = []string{
+	"0", "1", "5", "-0", "+0", "-1", "+1", "-2", "-5", "2147483647", "2147483648", "-2147483648", "-2147483649",
+	"4294967295", "4294967296", "-4294967295", "18446744073709551615", "18446744073709551616", "-18446744073709551615",
+	"9223372036854775807", "9223372036854775808", "-9223372036854775808",
+	"0x10", "0X1f", "-0x10", "0x7fffffff", "0x80000000", "-0x80000000", "-0x80000001", "0xffffffff", "0x100000000",
+	"0xFFFFFFFFFFFFFFFF", "0x10000000000000000", "0b101", "0B11", "0b2", "0o17", "0O7", "0o8", "017", "08", "00", "-017",
+	"0x", "0b", "0o", "0_7", "1_000", "1__0", "_1", "1_", "0x_1", "0_x1", "0x1_", "1_0_0", "-1_0", "+0x_f",
+	"abc", "", " 1", "1 ", "1e3", "1.5", "-", "+", "--1", "0x-1", "１",
+}
+
+func (h *H) c49ApplyValue(kind string) string {
+	switch kind {
+	case "int", "uint", "c49Named", "float64":
+		switch h.Intn(5) {
+		case 0:
+			s := h.c49Num()
+			if h.Intn(3) == 0 {
+				s = "-" + s
+			}
+			return s
+		case 1:
+			return Itoa(h.Intn(64))
+		default:
+			return h.Pick(c49IntVals)
+		}
+	case "bool":
+		return h.Pick([]string{"true", "True", "TRUE", "t", "T", "1", "false", "False", "FALSE", "f", "F", "0", "yes", "tRUE", "", "2", "on"})
+	case "Duration":
+		return h.Pick([]string{"1m", "90s", "1h30m", "1.5h", "-5s", "5", "", "1d", "9999999h", "1ns", "0", "2562047h", "2562048h", "1m ", "h"})
+	}
+	return h.Pick([]string{"", "x", "a b", "-1", "ssh -p 22", "STANDARD", "é"})
+}
+
+func c49Apply(h *H, st c49Struct, opts map[string]string) {
+	dst := st.mk()
+	tags, kinds, idx := c49Fields(dst)
+	h.Case("apply")
+	h.Rec("struct", st.name)
+	for _, t := range tags {
+		h.Rec("field", HexS(t), kinds[t])
+	}
+	var keys []string
+	for k := range opts {
+		keys = append(keys, k)
+	}
+	sort.Strings(keys)
+	// like global.parseConfig: the namespace is stripped by the real Extract
+	full := options.Options{}
+	for _, k := range keys {
+		full[st.ns+"."+k] = opts[k]
+		d, err := time.ParseDuration(opts[k])
+		if err != nil {
+			h.Rec("opt", HexS(k), HexS(opts[k]), "dur", "err")
+		} else {
+			h.Rec("opt", HexS(k), HexS(opts[k]), "dur", "ok", I64(int64(d)))
+		}
+	}
+	full["other.ns.key"] = "ignored"
+	var err error
+	panicked, msg := Protect(func() { err = full.Extract(st.ns).Apply(st.ns, dst) })
+	switch {
+	case panicked:
+		h.Rec("res", "panic", HexS(msg))
+	case err != nil:
+		switch {
+		case strings.Contains(err.Error(), "is not known"):
+			h.Rec("res", "err", "unknown")
+		case errors.Is(err, strconv.ErrRange):
+			h.Rec("res", "err", "range")
+		case errors.Is(err, strconv.ErrSyntax):
+			h.Rec("res", "err", "syntax")
+		case strings.HasPrefix(err.Error(), "time: "):
+			h.Rec("res", "err", "badduration")
+		default:
+			h.Rec("res", "err", "other:"+HexS(err.Error()))
+		}
+	default:
+		v := reflect.ValueOf(dst).Elem()
+		toks := []string{"ok"}
+		for _, k := range keys {
+			f := v.Field(idx[k])
+			var val string
+			switch f.Kind() {
+			case reflect.String:
+				val = HexS(f.String())
+			case reflect.Bool:
+				val = B(f.Bool())
+			case reflect.Int, reflect.Int8, reflect.Int16, reflect.Int32, reflect.Int64:
+				val = I64(f.Int())
+			case reflect.Uint, reflect.Uint8, reflect.Uint16, reflect.Uint32, reflect.Uint64:
+				val = U64(f.Uint())
+			default:
+				val = "?"
+			}
+			toks = append(toks, HexS(k)+"="+val)
+		}
+		h.Rec("res", toks...)
+	}
+	h.End()
+}
+
+func c49ApplyStream(h *H) {
+	harness := c49Structs[0]
+	// exhaustive short values for the integer kinds
+	c49Enum(h, "019-+x_a", 4, func(s string) {
+		c49Apply(h, harness, map[string]string{"i": s})
+		c49Apply(h, harness, map[string]string{"u": s})
+	})
+	// every curated value on every integer / bool / duration field of every struct
+	if h.Shard == 0 {
+		for _, st := range c49Structs {
+			tags, kinds, _ := c49Fields(st.mk())
+			for _, t := range tags {
+				switch kinds[t] {
+				case "int", "uint":
+					for _, v := range c49IntVals {
+						c49Apply(h, st, map[string]string{t: v})
+					}
+				}
+			}
+		}
+	}
+	n := h.N(3000, 40000)
+	for i := 0; i < n; i++ {
+		st := c49Structs[h.Intn(len(c49Structs))]
+		if h.Intn(3) == 0 {
+			st = harness
+		}
+		tags, kinds, _ := c49Fields(st.mk())
+		opts := map[string]string{}
+		for k := 1 + h.Intn(3)/2; k > 0; k-- {
+			t := tags[h.Intn(len(tags))]
+			if kinds[t] == "float64" || kinds[t] == "c49Named" {
+				if h.Intn(4) == 0 {
+					// unsupported field type: Apply panics; keep it the only option so that the
+					// outcome does not depend on the map iteration order
+					opts = map[string]string{t: h.c49ApplyValue(kinds[t])}
+					break
+				}
+				continue
+			}
+			if h.Intn(25) == 0 {
+				opts["nosuchoption"] = "1"
+				continue
+			}
+			opts[t] = h.c49ApplyValue(kinds[t])
+		}
+		c49Apply(h, st, opts)
+	}
+}
+
 func streamC49(h *H) {
+	c49ApplyStream(h)
+
 	thorough := h.Thorough()
 	ml := func(q, t int) int {
 		if thorough {
